@@ -400,6 +400,17 @@ func runC13Reconfigure(t *fw.T) {
 				}
 			}
 			cur = m
+			if r.IntN(3) == 0 {
+				// a plugin installed after the modes were chosen (a no-op one, or one that adds a pass-through interceptor):
+				// installing plugins and choosing modes are independent, in either order
+				if r.IntN(2) == 0 {
+					pb.Install(func(b *parser.Builder) {})
+				} else {
+					pb.Install(func(b *parser.Builder) {
+						b.UseExpressionInterceptor(func(p *parser.Parser, next func() ast.Expression) ast.Expression { return next() })
+					})
+				}
+			}
 			built = append(built, pb.Build(src))
 		}
 	})
@@ -426,6 +437,62 @@ func runC13Reconfigure(t *fw.T) {
 		}
 	}
 	t.Distinct(src + fmt.Sprint(modes))
+}
+
+// smart mode and registered operators: a registered infix / postfix operator first on a line is not '(' or '[' and must
+// continue the expression in smart mode exactly as in default mode - whatever id its token type was given. One case =
+// one id: k dummy token types are registered before the operator's, so its id is 1000+k.
+func runC13SmartOperatorIds(t *fw.T) {
+	k := t.Index
+	for _, role := range []string{"infix", "postfix"} {
+		src := "a\n@ b\nc"
+		if role == "postfix" {
+			src = "a\n@\nc = d\n@"
+		}
+		var outs [2]ParseOut
+		var id token.Type
+		wit := func() map[string]any {
+			return map[string]any{"source": src, "operator_role": role, "token_type_id": int(id), "token_types_registered_before": k}
+		}
+		ok := t.Guard("parse with a registered operator", wit, func() {
+			for mi, m := range []Mode{{}, {Smart: true}} {
+				lb := lexer.NewBuilder()
+				for i := 0; i < k; i++ {
+					lb.RegisterTokenType(fmt.Sprintf("dummy%d", i))
+				}
+				id = lb.RegisterTokenType("op@")
+				lb.UseTokenInterceptor(func(l *lexer.Lexer, next func() token.Token) token.Token {
+					if l.CurrentChar == '@' {
+						tok := l.NewToken(id, "@")
+						l.ReadChar()
+						return tok
+					}
+					return next()
+				})
+				pb := parser.NewBuilder(lb).WithSmartSemicolon(m.Smart)
+				if role == "infix" {
+					pb.RegisterInfixOperator(id, parser.SUM, func(tok token.Token, left ast.Expression, right func() ast.Expression) ast.Expression {
+						return &cInfix{Tok: tok, Op: "@", L: left, R: right(), Level: parser.SUM}
+					})
+				} else {
+					pb.RegisterPostfixOperator(id, func(tok token.Token, left ast.Expression) ast.Expression {
+						return &cPostfix{Tok: tok, Op: "@", X: left}
+					})
+				}
+				p := pb.Build(src)
+				prog, err := p.ParseProgram()
+				outs[mi] = ParseOut{Prog: prog, Err: err, Errors: p.Errors()}
+			}
+		})
+		if !ok {
+			continue
+		}
+		t.Count("registered_operator_ids_checked", 1)
+		if !reflect.DeepEqual(outs[0].Errors, outs[1].Errors) || !reflect.DeepEqual(outs[0].Prog, outs[1].Prog) {
+			t.Violate("smart-changes-tree", "registered "+role+" operator first on a line", fmt.Sprintf("a registered %s operator (token type id %d) first on a line is read differently in smart-semicolon mode than in default mode, although it is neither '(' nor '[': %q", role, int(id), src), wit())
+		}
+	}
+	t.Distinct(fmt.Sprint("id", k))
 }
 
 func init() {
@@ -458,6 +525,7 @@ func init() {
 			}},
 			{Name: "tolerant", Quick: 40000, Thorough: 200000, Run: runC13Tolerant},
 			{Name: "smart", Quick: 40000, Thorough: 200000, Run: runC13Smart},
+			{Name: "smart/registered-operator-ids", Quick: 600, Thorough: 600, Exhaustive: true, Run: runC13SmartOperatorIds},
 			{Name: "builder-reconfigured-after-build", Quick: 24000, Thorough: 100000, PanicInconclusive: true, Run: runC13Reconfigure},
 			{Name: "smart-inside-expression-observed", Quick: 300, Thorough: 3000, PanicInconclusive: true, Run: func(t *fw.T) {
 				r := t.Rand()
